@@ -162,7 +162,7 @@ def run_history(res, exe, rng, first):
     ttype = rng.choice([1, 1, 2, 3, 5])
     cob0 = rng.choice([0x80, 0x80, 0x40000080, 0x100, 0x40000100])
     cyc0 = rng.choice(good[:6] + [0]) if not (cob0 & 0x40000000) else rng.choice(good[:6])
-    cfg = Config(nodeid=nid, freq=freq, tmrnum=16)
+    cfg = Config(nodeid=nid, freq=freq, tmrnum=rng.choice([1, 16, 16]))               # 1: exactly the timer the SYNC producer needs
     gen.add_mandatory(cfg, hb=0, sync_id=cob0, sync_cycle=cyc0, ssdo=1, ssdo_rw=False)
     cfg.add(var(0x2000, 0, RW | P, 1, 0x11))
     cfg.add(var(0x2001, 0, RW | P, 1, 0x42))
